@@ -196,7 +196,7 @@ def replay_call_site(case):
         f0 = np.random.default_rng(5).dirichlet(np.ones(60) * 0.4)
         m = pydrex.Mineral(regime=regime, n_grains=60, seed=11, fractions_init=f0)
         params = core.DefaultParams().as_dict()
-        params["number_of_grains"] = 60
+        params["number_of_grains"] = 17  # deliberately NOT the mineral's grain count (60): the floor is chi / n_grains of the aggregate itself
         params["gbs_threshold"] = 0.5
         L = np.zeros((3, 3))
         L[0, 2] = 2.0
